@@ -43,13 +43,15 @@ def _items(d: D, depth: int, nest: int, budget: list[int], in_component: bool = 
         elif kind == "cp":
             out.append({"op": "cp", "n": d.int(1, 3)})
         elif kind == "new":
-            out.append({"op": "new", "parent": d.int(0, 3) if d.pct(30) else None})
+            out.append({"op": "new", "parent": d.int(0, 3) if d.pct(30) else None, "stash": d.pct(50)})
         elif kind == "block":
             out.append({"op": "block", "exit": d.weighted([("return", 35), ("exception", 20), ("cancel", 20), ("raising_td", 15),
                                                            ("base_exception", 10)]),
                         # explicit parent = the k-th context below the top (if there are that many)
                         "parent": d.int(1, 3) if d.pct(25) else None,
                         "td_observe": d.pct(30),
+                        # enter a context that was constructed earlier (under another current context)
+                        "use_prebuilt": d.pct(20),
                         "body": _items(d, depth, nest + 1, budget, in_component)})
         elif kind == "par":
             how = d.weighted([("tg", 60), ("service", 20), ("factory", 20)])
@@ -92,6 +94,7 @@ class Interp:
         self.active_block_tasks = 0
         self.stop = False
         self.labels: set[str] = set()
+        self.prebuilt: dict[int, list] = {}  # per task (keyed by its stack object): contexts constructed but not entered
 
     def disc(self, bucket: str, msg: str) -> None:
         self.out.add("ctxstack", "ctxstack:" + bucket, msg)
@@ -151,6 +154,8 @@ class Interp:
                 if c.parent is not want:
                     self.disc("new-context-parent" + (":component" if in_component >= 0 else ""),
                               f"{here}: Context() created with parent {_nm(c.parent)}, the creating task's current context is {_nm(want)}")
+                elif it.get("stash") and want is not None:
+                    self.prebuilt.setdefault(id(stack), []).append((c, want))
             elif op == "block":
                 await self.block(stack, it, here, in_component)
             elif op == "par":
@@ -198,7 +203,13 @@ class Interp:
         exit_ = it["exit"]
         before = list(stack)
         k = it.get("parent")
-        if k is not None and len(stack) >= 2:
+        stash = self.prebuilt.get(id(stack), [])
+        usable = [(c_, p_) for (c_, p_) in stash if any(p_ is s_ for s_ in stack)]
+        if it.get("use_prebuilt") and usable:
+            c, want_parent = usable[-1]
+            stash.remove((c, want_parent))
+            self.labels.add("prebuilt-context")
+        elif k is not None and len(stack) >= 2:
             want_parent = stack[max(0, len(stack) - 1 - k)]
             c = Context(want_parent)
             self.labels.add("explicit-parent")
@@ -228,7 +239,15 @@ class Interp:
                     if it.get("td_observe"):
                         # teardown callbacks run while the block is being left: still inside it
                         snapshot = list(stack)
-                        c.add_teardown_callback(lambda: self.observe(snapshot, here + "(inside a teardown callback)", -1))
+
+                        def during_teardown() -> None:
+                            self.observe(snapshot, here + "(inside a teardown callback)", -1)
+                            fresh = Context()  # created while the context is being torn down: it is still current
+                            if fresh.parent is not snapshot[-1] and not self.stop:
+                                self.disc("new-context-parent:during-teardown", f"{here}: Context() created inside a teardown callback has parent "
+                                          f"{_nm(fresh.parent)}, the context being torn down (still current) is {_nm(snapshot[-1])}")
+
+                        c.add_teardown_callback(during_teardown)
                     await self.run(stack, it["body"], here, in_component)
                     if not self.stop:
                         self.observe(stack, here + "(end of body)", -1)
